@@ -207,9 +207,15 @@ def run(ctx):
         S2.fi_stack.pop()
         return e2.get(name)
     ss = dim_of('spike_samples')
-    ctx.check(isinstance(ss, Arr) and isinstance(ss.elem, Q) and ss.elem.d() == {'samp': 1}, 'C15.U1', cg, 'spike_samples', 'spike samples = times x sampling rate (samples)', 'spike samples are %s' % ss)
+    if isinstance(ss, Arr) and isinstance(ss.elem, Q):
+        ctx.check(ss.elem.d() == {'samp': 1}, 'C15.U1', cg, 'spike_samples', 'spike samples = times x sampling rate (samples)', 'spike samples are %s' % ss)
+    else:
+        ctx.undecided('C15.U1', cg, 'the unit of `spike_samples` was not derived (%s)' % ss)
     bs = dim_of('binsize')
-    ctx.check(isinstance(bs, Q) and bs.d() == {'samp': 1}, 'C15.U1', cg, 'binsize', 'bin size in samples = rate x bin size', 'the bin size is %s, expected samples' % bs)
+    if isinstance(bs, Q):
+        ctx.check(bs.d() == {'samp': 1}, 'C15.U1', cg, 'binsize', 'bin size in samples = rate x bin size', 'the bin size is %s, expected samples' % bs)
+    else:
+        ctx.undecided('C15.U1', cg, 'the unit of `binsize` was not derived (%s)' % bs)
     sd = [x for x in cg.nodes(ast.Assign) if unparse(x.targets[0]) == 'spike_diff_b']
     ctx.check(bool(sd) and unparse(sd[0].value).replace(' ', '') == 'spike_diff//binsize', 'C15.U1', cg, sd[0] if sd else 'lag', 'lag in bins = floor(delay in samples / bin size in samples)',
               'the lag is `%s`, not floor(delay / bin size)' % (unparse(sd[0].value) if sd else '?'))
@@ -233,6 +239,24 @@ def run(ctx):
     t = unparse(r[-1].value).replace(' ', '') if r else ''
     ctx.check(t == '%s[%s:]-%s[:len(%s)-%s]' % (ds.params[0], ds.params[1], ds.params[0], ds.params[0], ds.params[1]), 'C15.U1', ds, r[-1] if r else '_diff_shifted',
               'delay = later spike minus earlier spike (non-negative for sorted times)', '_diff_shifted is `%s`, not arr[steps:] - arr[:len(arr) - steps]' % t)
+    # the delay is the difference of the INTEGER sample indices floor(t * rate): subtracting the float times first and truncating afterwards
+    # can land just below the exact integer ((0.3 - 0.1) * 10 = 1.9999999999999998 -> 1) and moves the pair one bin down
+    dcalls = [c for c in cg.calls() if dotted(c.func) == '_diff_shifted' and c.args]
+    if not dcalls:
+        ctx.undecided('C15.U1', cg, 'no call of _diff_shifted in correlograms(): provenance of the delay not recognised')
+    for c in dcalls[:1]:
+        arg = c.args[0]
+        src = cg.expand(arg)
+        casts = [n for n in ast.walk(src) if isinstance(n, ast.Call) and q.method_name(n) == 'astype' and n.args and unparse(n.args[0]) in ('np.int64', 'int', 'np.int32', 'np.intp', 'np.uint64', "'int64'")]
+        casts += [n for n in ast.walk(src) if isinstance(n, ast.Call) and dotted(n.func) in ('np.floor', 'np.rint', 'np.round', 'np.int64')]
+        floaty = isinstance(arg, ast.Name) and arg.id in cg.params and not casts
+        if casts:
+            ctx.holds('C15.U1', cg, 'the delay is the difference of integer sample indices (`%s`)' % unparse(src)[:70], c)
+        elif floaty or (isinstance(src, ast.BinOp) and not casts) or (isinstance(src, ast.Call) and dotted(src.func) in ('np.asarray', 'np.array', '_as_array') and not casts):
+            ctx.violated('C15.U1', cg, c, 'the delay is computed by subtracting `%s`, which is not converted to integer sample indices first: the floating-point difference of two '
+                         'times can fall just below the exact value, and the pair is counted one bin too low after truncation' % unparse(arg))
+        else:
+            ctx.undecided('C15.U1', cg, 'operand of _diff_shifted (`%s`) not recognised as integer samples or float times' % unparse(src)[:60], c)
     dd = [x for x in cg.nodes(ast.Assign) if unparse(x.targets[0]) == 'd']
     ctx.check(bool(dd) and all(unparse(x.value).replace(' ', '') == 'spike_diff_b[m]' for x in dd), 'C15.U1', cg, dd[0] if dd else 'd', 'the lag of a pair is read with the same mask as its clusters',
               'the lag vector is not spike_diff_b[m]')
